@@ -530,13 +530,26 @@ def warm_imports():
 
         from vlib import runner  # noqa: F401
 
+        # modules guppylang imports lazily at the first check / compile of a session
+        import guppylang_internals.checker.linearity_checker  # noqa: F401
+        import guppylang_internals.tracing.builtins_mock  # noqa: F401
+        import guppylang_internals.tracing.frozenlist  # noqa: F401
+        import guppylang_internals.tracing.function  # noqa: F401
+        import guppylang_internals.tracing.unpacking  # noqa: F401
+
         # two interpreter-level (not guppylang) caches that make a forked session cheaper without changing
-        # what it computes: inspect's module-by-file table (otherwise rebuilt by the first decorator call of
-        # every session) and a frozen GC generation (fewer copy-on-write faults in the children)
+        # what it computes (page faults are what bounds the number of sessions per run here):
+        # inspect's file -> module table, which the first @guppy of a module not yet listed rebuilds by
+        # walking all of sys.modules - the names the sessions will use are entered beforehand; and a frozen
+        # GC generation (no copy-on-write traffic from collections in the children)
         import gc
         import inspect
 
         inspect.getmodule(sys._getframe())
+        for name in ["c11pool"] + [f"c11extra{i}" for i in range(1, 41)]:
+            fn = f"/verifgen/{name}.py"
+            inspect.modulesbyfile[fn] = name
+            inspect._filesbymodname[name] = fn
         gc.collect()
         gc.freeze()
         _WARM[0] = True
@@ -595,6 +608,8 @@ def judge_history(pool, history, refs, scoped=None):
     got = run_child(pool, history, "h")
     if len(got) != len(history):
         return ("history.truncated", f"{len(got)} outcomes for {len(history)} steps")
+    if hasattr(refs, "offer") and history and history[0][0] != "redefine":
+        refs.offer(history[0], got[0])   # the first step of a session is a single step in a fresh session
     for i, (step, out) in enumerate(zip(history, got)):
         if step[0] == "redefine":
             if out[0] != "ok":
@@ -607,9 +622,9 @@ def judge_history(pool, history, refs, scoped=None):
             failed_before = [h for h, o in zip(history[:i], got[:i]) if o[0] != "ok"]
             kind = f"{ref[0]}->{out[0]}"
             cause = "after_failure" if failed_before else ("repeat" if step in history[:i] else "after_success")
-            if (kind == "ok->ok" and len(out) > 2 and len(ref) > 2 and out[2] != ref[2]
-                    and sorted(out[2].split(",")) == sorted(ref[2].split(","))):
-                leak = ".function_order"   # same functions in the module, in a different order
+            if kind == "ok->ok" and len(out) > 2 and len(ref) > 2 and sorted(out[2].split(",")) == sorted(ref[2].split(",")):
+                # two HUGRs with the same functions: in a different order, or differing below the function list
+                leak = ".function_order" if out[2] != ref[2] else ""
             else:
                 leak = scoped_leak_class(scoped, [h[1] for h in history[:i] if h[0] != "redefine"], step[1])
             return (f"history_dependent.{kind}.{cause}{leak}",
@@ -626,39 +641,68 @@ def references(pool, ops, defs=None):
     return refs
 
 
-def shared_references(ctx, pool, ops, defs=None):
-    """the shards split the (op, definition) reference runs among themselves (one fresh interpreter
-    each) and exchange them through files in the run's work directory"""
-    import time
+class RefStore:
+    """fresh-session outcomes of single steps, computed when first needed (one forked fresh interpreter
+    each) and shared between the shards through files in the run's work directory.  The first step of
+    any history is by construction a single step in a fresh session, so its outcome is entered as well
+    (`offer`) and saves a dedicated reference session."""
 
-    work = os.environ.get("VERIF_WORK") or os.path.join(harness.VERIF, ".work")
-    d = os.path.join(work, f"c11refs_{ctx.seed}_{ctx.tier}")
-    os.makedirs(d, exist_ok=True)
-    todo = [(op, df) for df in (defs or DEFS) for op in ops]
-    mine = {}
-    for k, (op, df) in enumerate(todo):
-        if k % ctx.nshards == ctx.shard:
-            mine[f"{op}:{df}"] = run_child(pool, [[op, df]], "ref")[0]
-    tmp = os.path.join(d, f"part{ctx.shard}.tmp")
-    json.dump({"pool_sha": hashlib.sha1(pool.encode()).hexdigest(), "refs": mine}, open(tmp, "w"))
-    os.replace(tmp, os.path.join(d, f"part{ctx.shard}.json"))
-    t_end = time.time() + max(60.0, ctx.budget_s * 0.5)
-    while time.time() < t_end:
-        parts = [os.path.join(d, f"part{i}.json") for i in range(ctx.nshards)]
-        if all(os.path.exists(x) for x in parts):
-            refs = {}
-            for x in parts:
-                j = json.load(open(x))
-                if j["pool_sha"] != hashlib.sha1(pool.encode()).hexdigest():
-                    ctx.harness_error("shards built different pools")
+    def __init__(self, ctx, pool, on_new=None):
+        self.ctx = ctx
+        self.skipped = 0
+        work = os.environ.get("VERIF_WORK") or os.path.join(harness.VERIF, ".work")
+        self.dir = os.path.join(work, f"c11refs_{ctx.seed}_{ctx.tier}_{hashlib.sha1(pool.encode()).hexdigest()[:12]}")
+        os.makedirs(self.dir, exist_ok=True)
+        self.pool = pool
+        self.mem = {}
+        self.on_new = on_new
+        self.computed = 0
+        self.harvested = 0
+
+    def _path(self, key):
+        return os.path.join(self.dir, f"{key[0]}__{key[1]}.json")
+
+    def _load(self, key):
+        try:
+            with open(self._path(key)) as f:
+                return json.load(f)
+        except (OSError, ValueError):
+            return None
+
+    def _store(self, key, out):
+        tmp = self._path(key) + f".{os.getpid()}.tmp"
+        with open(tmp, "w") as f:
+            json.dump(out, f)
+        os.replace(tmp, self._path(key))
+        self.mem[key] = out
+        if self.on_new:
+            self.on_new(key, out)
+
+    def get(self, key):
+        key = (key[0], key[1])
+        if key not in self.mem:
+            out = self._load(key)
+            if out is None:
+                if self.ctx.out_of_time(0.8):   # no new reference sessions at the end of the budget:
+                    self.skipped += 1           # the step is left unjudged (judge_history skips it)
                     return None
-                for k, v in j["refs"].items():
-                    op, df = k.split(":", 1)
-                    refs[(op, df)] = v
-            return refs
-        time.sleep(0.5)
-    ctx.harness_error("timed out waiting for the other shards' reference outcomes (inconclusive)")
-    return None
+                out = run_child(self.pool, [list(key)], "ref")[0]
+                self.computed += 1
+                self._store(key, out)
+            else:
+                self.mem[key] = out
+                if self.on_new:
+                    self.on_new(key, out)
+        return self.mem[key]
+
+    def offer(self, key, out):
+        key = (key[0], key[1])
+        if key not in self.mem and self._load(key) is None:
+            self.harvested += 1
+            self._store(key, out)
+
+    def __setitem__(self, key, out):
+        self.mem[(key[0], key[1])] = out
 
 
 def minimise(pool, history, refs, bucket, scoped=None):
@@ -714,28 +758,21 @@ def worker(ctx):
     if renamed and ctx.shard == 0:
         ctx.exclude("same_scope_nested_name_clash: nested function renamed to a private name", renamed)
     sc_defs = sorted(scoped_index(scoped))
-    all_defs = DEFS + sc_defs
     pool = POOL_HEAD + "\n" + body + "\n" + scoped_render(scoped)
     ctx.notes["scoped_section"] = {"spec": scoped, "classes": sorted(scoped_classes(scoped))}
     ops = OPS + (["emulate"] if ctx.params.get("emulate") else [])
-    ref_ops = OPS
-    if os.environ.get("C11_DEBUG"):
-        open("/tmp/c11exp/debug.log", "a").write(f"[c11 shard {ctx.shard}] pool ready at {ctx.elapsed():.1f}s\n")
-    refs = shared_references(ctx, pool, ref_ops, all_defs)
-    if os.environ.get("C11_DEBUG"):
-        open("/tmp/c11exp/debug.log", "a").write(f"[c11 shard {ctx.shard}] refs ready at {ctx.elapsed():.1f}s\n")
-    if refs is None:
-        return
+    # references are computed when first needed and shared between the shards (RefStore); the pool
+    # classification is verified on every compile_function reference that becomes known
+    # (comptime bodies are only traced by compile, so classification uses compile_function)
+    wrong = {}
+
+    def classify(key, out):
+        if key[0] == "compile_function" and ((key[1] in BAD and out[0] == "ok") or (key[1] in GOOD and out[0] != "ok")):
+            wrong[key[1]] = out
+
+    refs = RefStore(ctx, pool, on_new=classify)
     if ctx.params.get("emulate"):
         refs[("emulate", "main")] = run_child(pool, [["emulate", "main"]], "ref")[0]
-    ctx.notes["reference_outcomes"] = {f"{op}:{d}": v[0] for (op, d), v in refs.items()}
-    # (comptime bodies are only traced by compile, so classification uses compile_function)
-    bad_ok = [d for d in BAD if refs[("compile_function", d)][0] == "ok"]
-    good_bad = [d for d in GOOD if refs[("compile_function", d)][0] != "ok"]
-    if bad_ok or good_bad:
-        ctx.harness_error(f"pool classification wrong: failing defs accepted {bad_ok}, good defs rejected {good_bad}: "
-                          + str({d: refs[('compile_function', d)] for d in good_bad})[:1500])
-        return
 
     step = st.one_of(
         st.tuples(st.sampled_from(OPS), st.sampled_from(DEFS)).map(list),
@@ -750,6 +787,18 @@ def worker(ctx):
     @st.composite
     def histories(draw):
         h = draw(st.lists(step, min_size=3, max_size=ctx.params["steps"]))
+        # definitions of the scoped section (local Python scopes, nested functions) in between ...
+        for _ in range(draw(st.integers(0, 3))):
+            h.insert(draw(st.integers(0, len(h))), [draw(st.sampled_from(OPS)), draw(st.sampled_from(sc_defs))])
+        # ... and two of them that are related by a bare name (one holds a recursive nested function
+        # called N, the other one uses a global called N), in this order, anywhere in the history
+        # (both before the biases below, whose adjacent pairs must stay adjacent)
+        if related and draw(st.booleans()):
+            d1, d2 = draw(st.sampled_from(related))
+            i = draw(st.integers(0, len(h)))
+            j = draw(st.integers(i, len(h)))
+            h.insert(j, [draw(st.sampled_from(OPS)), d2])
+            h.insert(i, [draw(st.sampled_from(OPS)), d1])
         # make repeats and "good after bad" frequent
         if draw(st.booleans()) and h:
             h.append(list(draw(st.sampled_from(h))))
@@ -763,17 +812,6 @@ def worker(ctx):
             o1, o2 = draw(st.permutations(OPS))[:2]
             i = draw(st.integers(0, len(h)))
             h[i:i] = [[o1, d], [o2, d]]
-        # definitions of the scoped section (local Python scopes, nested functions) in between ...
-        for _ in range(draw(st.integers(0, 3))):
-            h.insert(draw(st.integers(0, len(h))), [draw(st.sampled_from(OPS)), draw(st.sampled_from(sc_defs))])
-        # ... and two of them that are related by a bare name (one holds a recursive nested function
-        # called N, the other one uses a global called N), in this order, anywhere in the history
-        if related and draw(st.booleans()):
-            d1, d2 = draw(st.sampled_from(related))
-            i = draw(st.integers(0, len(h)))
-            j = draw(st.integers(i, len(h)))
-            h.insert(j, [draw(st.sampled_from(OPS)), d2])
-            h.insert(i, [draw(st.sampled_from(OPS)), d1])
         return h
 
     found = {}
@@ -782,9 +820,13 @@ def worker(ctx):
 
     def body_fn(h):
         key = json.dumps(h)
-        if key in done:   # (every chunk of a Hypothesis run starts with the same simplest history)
+        if key in done:   # (every chunk of a Hypothesis run, in every shard, starts with the same simplest history)
             return
         done.add(key)
+        try:              # ... so a history is evaluated by the first shard that draws it only
+            os.close(os.open(os.path.join(refs.dir, "seen_" + hashlib.sha1(key.encode()).hexdigest()), os.O_CREAT | os.O_EXCL | os.O_WRONLY))
+        except FileExistsError:
+            return
         r = judge_history(pool, h, refs, scoped)
         named = [s for s in h if s[0] != "redefine"]
         sc_steps = [s[1] for s in named if s[1] in sc_defs]
@@ -815,6 +857,12 @@ def worker(ctx):
             if r and r[0] == bucket:
                 h, detail = h2, r[1]
         ctx.violation(bucket, {"pool": pool, "history": h, "scoped": scoped}, detail)
+    ctx.notes["reference_outcomes"] = {f"{op}:{d}": v[0] for (op, d), v in sorted(refs.mem.items())}
+    ctx.notes["reference_sessions"] = {"dedicated": refs.computed, "first_step_of_a_history": refs.harvested,
+                                       "steps_left_unjudged_at_end_of_budget": refs.skipped}
+    if wrong:
+        ctx.harness_error(f"pool classification wrong (failing definition accepted / good definition rejected in a fresh session): "
+                          + str(wrong)[:1500])
 
 
 SPEC = harness.Spec(
